@@ -32,6 +32,28 @@ PRODUCERS = ['EntityMeta._get_by_raw_pkval_', 'EntityMeta._fetch_objects', 'unpi
              'EntityMeta._find_in_db_', 'EntityMeta._find_one_', 'EntityMeta.__getitem__', 'EntityMeta.get', 'Entity.__init__']
 
 
+def failsafe_rule(ctx, P='C11-FAILSAFE'):
+    repo, cg = ctx.repo, ctx.cg
+    # ---------------------------------------------------------------- FAILSAFE
+    # update_simple_index / update_composite_index can refuse a key (CacheIndexError).  Whatever they have already taken out of the index at that point is
+    # lost unless it was recorded in `undo` first: from every `del <index>[...]` / `<index>.pop(...)` no throw is reachable without passing undo.append(...)
+    nfs = 0
+    for qual in ('SessionCache.update_simple_index', 'SessionCache.update_composite_index'):
+        f = repo.fn(CORE, qual); g = cg.cfg(f)
+        removals = [x for x in g.nodes if x.kind == 'stmt' and (isinstance(x.ast, ast.Delete) or any(isinstance(c.func, ast.Attribute) and c.func.attr == 'pop' for c in x.calls()))
+                    and 'index' in norm(x.ast)]
+        recs = nodes_calling(g, lambda c: dotted(c.func) == 'undo.append')
+        throws_ = [x for x in g.nodes if x.kind == 'stmt' and x.ast is not None and g.is_noreturn_stmt(x.ast)]
+        for rm in removals:
+            nfs += 1
+            r_ = g.reach([rm], avoid=recs, include_src=False)
+            bad = [t for t in throws_ if t.id in r_]
+            ctx.ob(P + '.key-removed-from-the-index-is-recorded-before-anything-can-fail', f, rm.ast, not bad,
+                   '' if not bad else 'after `%s` the refusal at line %d can be reached before undo.append(...): the caller\'s rollback restores the attribute value but not the '
+                   'index entry, so the object keeps a key the index no longer maps to it and a second object can take that key' % (norm(rm.ast), bad[0].lineno), node=rm.ast)
+    ctx.floor(P, nfs, 2, 'removals of a key from a session index')
+
+
 def run(ctx):
     repo, cg = ctx.repo, ctx.cg
     from . import C08
@@ -117,24 +139,7 @@ def run(ctx):
         ctx.ob('C11-RELEASE.given-up-key-value-leaves-the-index', f, rem[0] if rem else f.node, ok, '' if ok else why, node=rem[0] if rem else None,
                expected='`if %s is not None: del cache_index[%s]` at the top level of the function' % (old, old))
     ctx.floor('C11-RELEASE', nrel, 4, 'index updaters')
-    # ---------------------------------------------------------------- FAILSAFE
-    # update_simple_index / update_composite_index can refuse a key (CacheIndexError).  Whatever they have already taken out of the index at that point is
-    # lost unless it was recorded in `undo` first: from every `del <index>[...]` / `<index>.pop(...)` no throw is reachable without passing undo.append(...)
-    nfs = 0
-    for qual in ('SessionCache.update_simple_index', 'SessionCache.update_composite_index'):
-        f = repo.fn(CORE, qual); g = cg.cfg(f)
-        removals = [x for x in g.nodes if x.kind == 'stmt' and (isinstance(x.ast, ast.Delete) or any(isinstance(c.func, ast.Attribute) and c.func.attr == 'pop' for c in x.calls()))
-                    and 'index' in norm(x.ast)]
-        recs = nodes_calling(g, lambda c: dotted(c.func) == 'undo.append')
-        throws_ = [x for x in g.nodes if x.kind == 'stmt' and x.ast is not None and g.is_noreturn_stmt(x.ast)]
-        for rm in removals:
-            nfs += 1
-            r_ = g.reach([rm], avoid=recs, include_src=False)
-            bad = [t for t in throws_ if t.id in r_]
-            ctx.ob('C11-FAILSAFE.key-removed-from-the-index-is-recorded-before-anything-can-fail', f, rm.ast, not bad,
-                   '' if not bad else 'after `%s` the refusal at line %d can be reached before undo.append(...): the caller\'s rollback restores the attribute value but not the '
-                   'index entry, so the object keeps a key the index no longer maps to it and a second object can take that key' % (norm(rm.ast), bad[0].lineno), node=rm.ast)
-    ctx.floor('C11-FAILSAFE', nfs, 2, 'removals of a key from a session index')
+    failsafe_rule(ctx)
 
 
 MUTANTS = [
